@@ -419,11 +419,10 @@ def step (d : DState) (args : List String) : DState × String :=
         -- Sched: the same object with the scheduler's view of it (packets per transfer, count, carousel)
         let sch := match r.2, d.sched, r.1.files.getLast?, carKind? (args.getD 12 "~") with
           | .ok t, some st, some fd, some ck =>
-            -- scope of the differential: everything except EMPTY objects sent with RaptorQ / Raptor - there the real sender
-            -- needs more reads per transfer than the one close-object packet the scheduler model assumes for a
-            -- transfer without symbols (reported to sched / benc); for them the differential is switched off for the case
-            if (fd.oti.enc = 6 || fd.oti.enc = 1) && tl = 0 then none else
-            let aa : Sched.AddArgs := { prio := 0, nSym := nPackets fd.oti tl, maxCount := mtc, carousel := ck,
+            -- an EMPTY object sent with RaptorQ / Raptor: the encoder yields the p repair packets of the empty block
+            -- (sched's mapping: packets per transfer = p)
+            let npk := if (fd.oti.enc = 6 || fd.oti.enc = 1) && tl = 0 then fd.oti.parity else nPackets fd.oti tl
+            let aa : Sched.AddArgs := { prio := 0, nSym := npk, maxCount := mtc, carousel := ck,
                                         start := none, target := none, allowStop := false }
             some (Sched.addObject { st with nextToi := t } aa).1
           | .ok _, _, _, _ => none
